@@ -187,6 +187,7 @@ type styleSpec struct {
 	shapeAttrs, css, gAttrs string
 	w                       want
 	desc                    string
+	xf                      *aff // transform attribute on the shape element itself (in shapeAttrs)
 }
 
 func styles() []styleSpec {
@@ -194,32 +195,51 @@ func styles() []styleSpec {
 	d := defaults
 	with := func(f func(*want)) want { w := d(); f(&w); return w }
 	return []styleSpec{
-		{``, ``, ``, d(), "defaults: fill black, no stroke"},
-		{` fill="#f00"`, ``, ``, with(func(w *want) { w.fill = red }), "fill #rgb"},
-		{` fill="#00ff00" stroke="blue" stroke-width="2"`, ``, ``, with(func(w *want) { w.fill = green; w.stroke = blue; w.sw = 2 }), "fill #rrggbb, named stroke"},
+		{``, ``, ``, d(), "defaults: fill black, no stroke", nil},
+		{` fill="#f00"`, ``, ``, with(func(w *want) { w.fill = red }), "fill #rgb", nil},
+		{` fill="#00ff00" stroke="blue" stroke-width="2"`, ``, ``, with(func(w *want) { w.fill = green; w.stroke = blue; w.sw = 2 }), "fill #rrggbb, named stroke", nil},
 		{` fill="none" stroke="rgb(10,20,30)" stroke-width="3" stroke-linecap="round" stroke-linejoin="round"`, ``, ``, with(func(w *want) {
 			w.fill = color.RGBA{}
 			w.stroke = color.RGBA{10, 20, 30, 255}
 			w.sw, w.cap, w.join = 3, "round", "round"
-		}), "rgb() stroke, round cap/join"},
-		{` fill="rgb(100%,0%,50%)"`, ``, ``, with(func(w *want) { w.fill = color.RGBA{255, 0, 128, 255} }), "rgb() with percentages"},
-		{` fill="none" stroke="red" stroke-width="2" stroke-linejoin="miter" stroke-miterlimit="2"`, ``, ``, with(func(w *want) { w.fill = color.RGBA{}; w.stroke = red; w.sw = 2; w.miter = 2 }), "linejoin before miterlimit"},
-		{` fill="none" stroke="red" stroke-width="2" stroke-miterlimit="2" stroke-linejoin="miter"`, ``, ``, with(func(w *want) { w.fill = color.RGBA{}; w.stroke = red; w.sw = 2; w.miter = 2 }), "miterlimit before linejoin"},
-		{` fill="none" stroke="red" stroke-width="2" stroke-miterlimit="2"`, ``, ``, with(func(w *want) { w.fill = color.RGBA{}; w.stroke = red; w.sw = 2; w.miter = 2 }), "miterlimit alone (default join is miter)"},
-		{` style="fill:blue;stroke:red;stroke-width:1.5"`, ``, ``, with(func(w *want) { w.fill = blue; w.stroke = red; w.sw = 1.5 }), "style attribute"},
-		{` fill="red" style="fill:blue"`, ``, ``, with(func(w *want) { w.fill = blue }), "style attribute after presentation attribute"},
-		{` style="fill:blue" fill="red"`, ``, ``, with(func(w *want) { w.fill = blue }), "style attribute before presentation attribute (style wins regardless of order)"},
-		{``, ``, ` fill="green" stroke="blue" stroke-width="2"`, with(func(w *want) { w.fill = color.RGBA{0, 128, 0, 255}; w.stroke = blue; w.sw = 2 }), "inherited from g"},
-		{` fill="red"`, ``, ` fill="green"`, with(func(w *want) { w.fill = red }), "own attribute overrides inherited"},
-		{` class="a"`, `.a{fill:blue}`, ``, with(func(w *want) { w.fill = blue }), "class rule"},
-		{` class="a" fill="red"`, `.a{fill:blue}`, ``, with(func(w *want) { w.fill = blue }), "class rule beats presentation attribute"},
-		{` id="s1"`, `#s1{fill:lime;stroke:black}`, ``, with(func(w *want) { w.fill = green; w.stroke = color.RGBA{0, 0, 0, 255} }), "id rule"},
-		{` fill="rgba(255,0,0,0.5)"`, ``, ``, with(func(w *want) { w.fill = color.RGBA{128, 0, 0, 128} }), "rgba() with fractional alpha"},
+		}), "rgb() stroke, round cap/join", nil},
+		{` fill="rgb(100%,0%,50%)"`, ``, ``, with(func(w *want) { w.fill = color.RGBA{255, 0, 128, 255} }), "rgb() with percentages", nil},
+		{` fill="none" stroke="red" stroke-width="2" stroke-linejoin="miter" stroke-miterlimit="2"`, ``, ``, with(func(w *want) { w.fill = color.RGBA{}; w.stroke = red; w.sw = 2; w.miter = 2 }), "linejoin before miterlimit", nil},
+		{` fill="none" stroke="red" stroke-width="2" stroke-miterlimit="2" stroke-linejoin="miter"`, ``, ``, with(func(w *want) { w.fill = color.RGBA{}; w.stroke = red; w.sw = 2; w.miter = 2 }), "miterlimit before linejoin", nil},
+		{` fill="none" stroke="red" stroke-width="2" stroke-miterlimit="2"`, ``, ``, with(func(w *want) { w.fill = color.RGBA{}; w.stroke = red; w.sw = 2; w.miter = 2 }), "miterlimit alone (default join is miter)", nil},
+		{` style="fill:blue;stroke:red;stroke-width:1.5"`, ``, ``, with(func(w *want) { w.fill = blue; w.stroke = red; w.sw = 1.5 }), "style attribute", nil},
+		{` fill="red" style="fill:blue"`, ``, ``, with(func(w *want) { w.fill = blue }), "style attribute after presentation attribute", nil},
+		{` style="fill:blue" fill="red"`, ``, ``, with(func(w *want) { w.fill = blue }), "style attribute before presentation attribute (style wins regardless of order)", nil},
+		{``, ``, ` fill="green" stroke="blue" stroke-width="2"`, with(func(w *want) { w.fill = color.RGBA{0, 128, 0, 255}; w.stroke = blue; w.sw = 2 }), "inherited from g", nil},
+		{` fill="red"`, ``, ` fill="green"`, with(func(w *want) { w.fill = red }), "own attribute overrides inherited", nil},
+		{` class="a"`, `.a{fill:blue}`, ``, with(func(w *want) { w.fill = blue }), "class rule", nil},
+		{` class="a" fill="red"`, `.a{fill:blue}`, ``, with(func(w *want) { w.fill = blue }), "class rule beats presentation attribute", nil},
+		{` id="s1"`, `#s1{fill:lime;stroke:black}`, ``, with(func(w *want) { w.fill = green; w.stroke = color.RGBA{0, 0, 0, 255} }), "id rule", nil},
+		{` fill="rgba(255,0,0,0.5)"`, ``, ``, with(func(w *want) { w.fill = color.RGBA{128, 0, 0, 128} }), "rgba() with fractional alpha", nil},
 		{` fill="none" stroke="red" stroke-linecap="square" stroke-linejoin="bevel" stroke-width="0.5"`, ``, ``, with(func(w *want) {
 			w.fill = color.RGBA{}
 			w.stroke = red
 			w.sw, w.cap, w.join = 0.5, "square", "bevel"
-		}), "square cap, bevel join"},
+		}), "square cap, bevel join", nil},
+		{` fill="none" stroke="red" stroke-width="2" stroke-linejoin="miter"`, ``, ` stroke-miterlimit="2" stroke-linecap="round"`, with(func(w *want) {
+			w.fill = color.RGBA{}
+			w.stroke = red
+			w.sw, w.miter, w.cap = 2, 2, "round"
+		}), "miter limit and cap inherited from g, join on the shape", nil},
+		{` stroke-width="3"`, ``, ` fill="none" stroke="blue" stroke-width="1" stroke-linejoin="round"`, with(func(w *want) {
+			w.fill = color.RGBA{}
+			w.stroke = blue
+			w.sw, w.join = 3, "round"
+		}), "stroke and join inherited, width overridden", nil},
+		{` fill="none" stroke="red" stroke-width="1mm"`, ``, ``, with(func(w *want) { w.fill = color.RGBA{}; w.stroke = red; w.sw = 1 / pxmm }), "stroke width with a unit (1mm = 3.78 user units)", nil},
+		{` transform="translate(3,4)" fill="#f00"`, ``, ``, with(func(w *want) { w.fill = red }), "transform attribute on the shape", &aff{1, 0, 0, 1, 3, 4}},
+		{` fill="#f00" transform="rotate(20) scale(1.5,0.5)"`, ``, ``, with(func(w *want) { w.fill = red }), "transform list on the shape, after other attributes", func() *aff { m := rotate(20).mul(scale(1.5, 0.5)); return &m }()},
+		{` style="stroke:blue;fill:none;stroke-width:2;stroke-linecap:round;stroke-linejoin:bevel"`, `rect,circle,ellipse,polygon,polyline,line,path{stroke:red;stroke-width:5}`, ``, with(func(w *want) {
+			w.fill = color.RGBA{}
+			w.stroke = blue
+			w.sw, w.cap, w.join = 2, "round", "bevel"
+		}), "type selector rule overridden by the style attribute", nil},
+		{``, `g rect, g circle, g ellipse, g polygon, g polyline, g line, g path{fill:blue}`, ` fill="red"`, with(func(w *want) { w.fill = blue }), "descendant selector beats the inherited presentation attribute", nil},
 	}
 }
 
@@ -318,6 +338,9 @@ func check(r *fw.R, sz sizeSpec, g1, g2 xf, sh shapeSpec, st styleSpec) {
 	op := pathOps[0]
 	// expected geometry: user units -> viewport px -> mm, y up
 	total := sz.vb.mul(g1.m).mul(g2.m)
+	if st.xf != nil {
+		total = total.mul(*st.xf)
+	}
 	toMM := func(p oracle.Pt) oracle.Pt {
 		q := total.apply(p)
 		return oracle.Pt{X: q.X * pxmm, Y: sz.h - q.Y*pxmm}
